@@ -220,7 +220,10 @@ namespace xsimd
         {
             if (std::is_signed<T>::value)
             {
-                return sadd(self, -other);
+                // not sadd(self, -other): -other overflows for the minimal value
+                auto other_pos_branch = max(std::numeric_limits<T>::min() + other, self);
+                auto other_neg_branch = min(std::numeric_limits<T>::max() + other, self);
+                return select(other < batch<T, A>(T(0)), other_neg_branch, other_pos_branch) - other;
             }
             else
             {
